@@ -394,6 +394,13 @@ struct PipeWorld : World {
 				for (size_t i = 0; i < n; ++i) if (dst[i] != want[i]) fail("corrupt", "peek reports %zd bytes of the waiting message #%zu but byte %zu of the preview is %02x, the message has %02x there", r, R.received, i, dst[i], want[i]);
 				st.hit("probe:peek_at_waiting_message");
 			}
+			else if (pending < 0 && r > 0 && max && R.received < R.completed.size()) {
+				// a message still being received: the preview is the start of what has been decoded of it so far, wherever the queue wraps
+				const Bytes want = R.expect(R.completed[R.received]);
+				size_t n = std::min<size_t>(std::min<size_t>((size_t) r, max), want.size());
+				for (size_t i = 0; i < n; ++i) if (dst[i] != want[i]) fail("corrupt", "peek reports %zd decoded bytes of message #%zu in progress but byte %zu of the preview is %02x, the message has %02x there (queue off=%zu len=%zu max=%zu)", r, R.received + 1, i, dst[i], want[i], dq.off, dq.len, dq.max);
+				st.hit("probe:peek_at_message_in_progress");
+			}
 			abstract(OP_RPEEK, r < 0 ? 0 : 1);
 			(void) before; (void) sb;
 		};
